@@ -11,6 +11,7 @@ import (
 	"reflect"
 	"sort"
 	"strings"
+	"sync"
 	"time"
 	"unsafe"
 )
@@ -78,6 +79,37 @@ func (d *Dumper) walk(b *strings.Builder, v reflect.Value, seen map[unsafe.Point
 		}
 		d.walk(b, v.Elem(), seen)
 	case reflect.Struct:
+		if t.Name() == "Map" && (t.PkgPath() == "sync" || strings.HasSuffix(t.PkgPath(), "/vsync")) && v.CanAddr() {
+			// a concurrent map (sync.Map, or the shim around one): its internals contain a per-map random hash
+			// seed and bookkeeping that differs between two runs of one history; its CONTENT is what is state
+			var sm *sync.Map
+			if t.PkgPath() == "sync" {
+				sm = (*sync.Map)(unsafe.Pointer(v.UnsafeAddr()))
+			} else if f := v.FieldByName("real"); f.IsValid() && f.CanAddr() {
+				sm = (*sync.Map)(unsafe.Pointer(f.UnsafeAddr()))
+			}
+			if sm != nil {
+				type kv struct{ k, v string }
+				var items []kv
+				sm.Range(func(k, val any) bool {
+					var kb, vb strings.Builder
+					d.walk(&kb, reflect.ValueOf(k), seen)
+					d.walk(&vb, reflect.ValueOf(val), seen)
+					items = append(items, kv{kb.String(), vb.String()})
+					return true
+				})
+				sort.Slice(items, func(i, j int) bool { return items[i].k < items[j].k })
+				b.WriteString("syncmap[")
+				for i, it := range items {
+					if i > 0 {
+						b.WriteString(" ")
+					}
+					b.WriteString(it.k + ":" + it.v)
+				}
+				b.WriteString("]")
+				return
+			}
+		}
 		b.WriteString(t.Name() + "{")
 		for i := 0; i < v.NumField(); i++ {
 			if i > 0 {
